@@ -19,7 +19,8 @@ def _t() -> Dict[str, List[Tuple[str, str, Callable[[Check], object]]]]:
     CONSENSUS_CODECS = lambda ck: c07.r07_1_2(ck, True, "R07.1")   # noqa
     return {
         "C01": [("R03.2", "the unspent set a spend is checked against is built from the block's PARENT's set", c03.r03_2),
-                ("R08.1", "after a restart the ledger is rebuilt from rows that mirror what was written", c08.r08_1)],
+                ("R08.1", "after a restart the ledger is rebuilt from rows that mirror what was written", c08.r08_1),
+                ("R13.6", "the state a rejected block is rolled back to is the latest validated one (every caller records it)", c13.r13_6)],
         "C02": [("R09.flow", "a relayed block is served as validated only after in-state validation completed", c09.r09_flow),
                 ("R08.1", "after a restart the ledger is rebuilt from rows that mirror what was written", c08.r08_1),
                 ("R07.1", "the header fields that tell solicited from unsolicited data are decoded as written", MSG)],
@@ -45,7 +46,8 @@ def _t() -> Dict[str, List[Tuple[str, str, Callable[[Check], object]]]]:
                 ("R01.10", "applying a block removes exactly the spent outputs (a re-spend fails to apply)", lambda ck: rule_uto_apply(ck, "R01.10")),
                 ("R02.3", "overspend check after the existence check (a missing input is a rejection, not an error)", c02.r02_3),
                 ("R03.2", "a fork block is applied to its parent's ledger", c03.r03_2),
-                ("R01.4", "a relayed block's spends carry signatures over the whole transaction (full validity before adoption)", c01.r01_3_4)],
+                ("R01.4", "a relayed block's spends carry signatures over the whole transaction (full validity before adoption)", c01.r01_3_4),
+                ("R05.6", "a relayed block's height is its parent's plus one (full validity before adoption)", c05.r05_6)],
         "C10": [("R03.2", "states built during download are built from each block's parent", c03.r03_2),
                 ("R04.4", "the height index used to answer get-blocks is the head's", c04.r04_4),
                 ("P7", "a block-sized data message fits the frame limit", c11.check_receive),
@@ -83,6 +85,8 @@ def _rejections(prefixes, what):   # type: ignore
 
 
 RX2 = {
+    "C07": (["skepticoin.networking.messages.", "skepticoin.datatypes.", "skepticoin.serialization.", "skepticoin.signing."],
+            "what the node itself encodes is decoded again, not refused"),
     "C04": (["skepticoin.networking.remote_peer.ConnectedRemotePeer.handle_block_received", "skepticoin.coinstate.", "skepticoin.consensus.validate_block"],
             "a competing block that is valid is not refused or ignored"),
     "C05": (["skepticoin.consensus.", "skepticoin.datatypes."], "a block the node assembled itself is not refused by its own validators"),
